@@ -430,7 +430,20 @@ def check_sweep_marks(rep, config):
                     i0 = strip(p_["c"][0])
                     if i0 is not None and i0["k"] == "BinaryOperator" and i0["op"] == "=" and render(strip(i0["c"][0])) == idx:
                         start = render(strip(i0["c"][1]))
+                elif p_["k"] == "WhileStmt" and start == idx and not any(y is tagdef for y in walk(p_)):
+                    # `qi = S; while (qi < E) { ...; qi++; }`: the start is the assignment just before the loop
+                    pp = par.get(p_["id"])
+                    if pp is not None and pp["k"] == "CompoundStmt":
+                        sts_ = [y for y in pp["c"] if y is not None]
+                        k_ = next(i for i, y in enumerate(sts_) if y is p_)
+                        if k_ > 0:
+                            prev = strip(sts_[k_ - 1])
+                            if prev is not None and prev["k"] == "BinaryOperator" and prev["op"] == "=" and render(strip(prev["c"][0])) == idx:
+                                start = render(strip(prev["c"][1]))
                 cur = p_
+            if start == idx and src != idx:
+                raise AnalysisBroken("%s: the start of the range cleared at line %d could not be derived (the loop is neither "
+                                     "`for (i = S; ..)` nor `i = S; while (..)`)" % (name, x["l"]))
             key = "sweep-mark:%s@%s:%d" % (name, start, n)
             if src == start:
                 rep.ok("T-sweep", key)
